@@ -480,9 +480,9 @@ class BlackbirdProgram:
                         array_insert += len(bb_array)
 
                     elif isinstance(v, str):
-                        # argument is a string type; if a p-type parameter (e.g. p0),
-                        # then simply add it as is
-                        if self.programtype["name"] == "tdm" and v[0] == "p" and v[1:].isdigit():
+                        # argument is a string type; if it names a p-type parameter (e.g. p0)
+                        # of this program, then simply add it as is
+                        if self.programtype["name"] == "tdm" and v in self._var and v[0] == "p" and v[1:].isdigit():
                             args.append(v)
                         else:
                             args.append('"{}"'.format(v))
@@ -523,9 +523,9 @@ class BlackbirdProgram:
                         array_insert += len(bb_array)
 
                     elif isinstance(v, str):
-                        # kwarg is a string type; if a p-type parameter (e.g. p0),
-                        # then simply add it as is
-                        if self.programtype["name"] == "tdm" and v[0] == "p" and v[1:].isdigit():
+                        # kwarg is a string type; if it names a p-type parameter (e.g. p0)
+                        # of this program, then simply add it as is
+                        if self.programtype["name"] == "tdm" and v in self._var and v[0] == "p" and v[1:].isdigit():
                             kwargs.append("{}={}".format(k, v))
                         else:
                             kwargs.append('{}="{}"'.format(k, v))
